@@ -67,6 +67,21 @@ class Prepared:
             if isinstance(it, KernelOp):
                 self.n_kernel += 1
                 it.jobs, it.blocks = FP.sub_jobs(it)
+                # BLOCKDEP counts jobs = (OFM block, IFM depth slice); the sub-kernels of a kernel beyond 8x8 are steps inside ONE job
+                # (the compiler's own dependency calculation counts the same way: "jobs are invisibly decomposed into subkernels")
+                it._job_of = []
+                it._jobs_done = [0]
+                nj = -1
+                lastkey = None
+                for jj, j_ in enumerate(it.jobs):
+                    key = (j_[0], j_[1])
+                    if key != lastkey:
+                        nj += 1
+                        lastkey = key
+                    it._job_of.append(nj)
+                    closes = jj + 1 == len(it.jobs) or (it.jobs[jj + 1][0], it.jobs[jj + 1][1]) != key
+                    it._jobs_done.append(it._jobs_done[-1] + (1 if closes else 0))
+                it._n_jobs = nj + 1
                 self.n_jobs += len(it.jobs)
                 it._reads = [None] * len(it.jobs)
                 it._writes = [None] * len(it.jobs)
@@ -329,8 +344,8 @@ class Run:
                     ok = True
                     if qi > 0:
                         prev = kq[qi - 1]
-                        unwritten = len(prev["op"].jobs) - prev["nw"]
-                        ok = prev["nr"] == len(prev["op"].jobs) and unwritten <= max(0, k["op"].blockdep - k["nr"])
+                        unwritten = prev["op"]._n_jobs - prev["op"]._jobs_done[prev["nw"]]
+                        ok = prev["nr"] == len(prev["op"].jobs) and unwritten <= max(0, k["op"].blockdep - k["op"]._job_of[k["nr"]])
                     inflight = sum(q["nr"] - q["nw"] for q in kq)
                     if ok and inflight < pipe:
                         acts.append(("kread", qi))
